@@ -857,3 +857,17 @@ add('C13.policy_entry_prefix_regex', 'C13', [(DPF, "import json\n", "import json
     'policy entries are matched as regular expressions with re.match (a prefix match): "CONV_2D" also selects CONV_2D_TRANSPOSE (seeded b13-C13)')
 add('C13.twin_policy_entry_full_regex', 'C13', [(DPF, "import json\n", "import json\nimport re\n"), (DPF, _DP_OLD, _DP_NEW % 'fullmatch')], (),
     'policy entries are matched as regular expressions with re.fullmatch: plain names select themselves only', kind='twin')
+
+# round 18
+add('C18.const_probe_subgraph0', 'C18', (IU, "      tensor_data = get_tensor_data(\n          tfl_interpreter, tensor_detail, subgraph_index\n      )\n      if tensor_data.size >= min_constant_size:",
+                                         "      tensor_data = get_tensor_data(\n          tfl_interpreter, tensor_detail, dequantize=False\n      )\n      if tensor_data.size >= min_constant_size:"),
+    'C18.R12', 'the constant probe reads every tensor index in subgraph 0 (seeded b18-C18; MISSED before R12)')
+add('C18.details_subgraph0', 'C18', (IU, "  tensor_name_to_detail = {}\n  for tensor_detail in tflite_interpreter.get_tensor_details(subgraph_index):",
+                                      "  tensor_name_to_detail = {}\n  for tensor_detail in tflite_interpreter.get_tensor_details():"),
+    'C18.R12', 'the details map lists subgraph 0 whatever subgraph is asked for')
+add('C12.load_reads_op_config_always', 'C12', (RM, "          _OpQuantizationConfig.from_dict(config['op_config'])\n          if config['algorithm_key'] != AlgorithmName.NO_QUANTIZE\n          else None,",
+                                               "          _OpQuantizationConfig.from_dict(config['op_config']),"),
+    'C12.R8', 'the loader reads op_config of a no_quantize entry, which a shipped hand-written recipe omits (seeded b18-C12; MISSED before R8)')
+add('C18.const_probe_keyword_twin', 'C18', (IU, "      tensor_data = get_tensor_data(\n          tfl_interpreter, tensor_detail, subgraph_index\n      )\n      if tensor_data.size >= min_constant_size:",
+                                            "      tensor_data = get_tensor_data(\n          tfl_interpreter, tensor_detail, subgraph_index=subgraph_index, dequantize=False\n      )\n      if tensor_data.size >= min_constant_size:"),
+    (), 'subgraph by keyword and no dequantization (only the element count is used): same names', kind='twin')
